@@ -72,10 +72,13 @@ impl EntityUID {
     pub uninterp spec fn spec_type(&self) -> EntityType;
     #[verifier::external_body] pub fn entity_type(&self) -> (r: &EntityType) ensures *r == self.spec_type() { unimplemented!() }
 }
-/// every entity type is inhabited (there is an entity uid of each type)
-pub axiom fn axiom_type_inhabited(t: EntityType) ensures exists|u: EntityUID| #[trigger] u.spec_type() == t;
+/// every entity type has (at least two) distinct entity uids: entity ids are arbitrary strings
+pub axiom fn axiom_type_inhabited(t: EntityType) ensures exists|u: EntityUID, w: EntityUID| #[trigger] u.spec_type() == t && #[trigger] w.spec_type() == t && u != w;
 /// derived PartialEq on these types is spec equality (trusted)
 #[verifier::external_body] pub fn vx_uid_eq(a: &EntityUID, b: &EntityUID) -> (r: bool) ensures r == (*a == *b) { unimplemented!() }
+#[verifier::external_body] pub fn vx_uid_ne(a: &EntityUID, b: &EntityUID) -> (r: bool) ensures r == (*a != *b) { unimplemented!() }
+#[verifier::external_body] pub fn vx_type_ne(a: Type, b: &Type) -> (r: bool) ensures r == (a != *b) { unimplemented!() }
+#[verifier::external_body] pub fn vx_smolstr_ne(a: &SmolStr, b: &SmolStr) -> (r: bool) ensures r == (*a != *b) { unimplemented!() }
 #[verifier::external_body] pub fn vx_etype_eq(a: &EntityType, b: &EntityType) -> (r: bool) ensures r == (*a == *b) { unimplemented!() }
 #[verifier::external_body] pub fn vx_etype_ne(a: &EntityType, b: &EntityType) -> (r: bool) ensures r == (*a != *b) { unimplemented!() }
 #[verifier::external_body] pub fn vx_type_eq(a: Type, b: &Type) -> (r: bool) ensures r == (a == *b) { unimplemented!() }
@@ -87,7 +90,7 @@ impl Value {
     #[verifier::external_body] pub fn type_of(&self) -> (r: Type) ensures r == self.spec_type_of() { unimplemented!() }
     #[verifier::external_body] pub fn source_loc(&self) -> (r: Option<&Loc>) { unimplemented!() }
     /// Value::set: the set of the given values (unit value_set), with the given location
-    #[verifier::external_body] pub fn set(vals: VxIter<Value>, loc: Option<Loc>) -> (r: Value) ensures r.value == mk_set(vals.items().map_values(|v: Value| v.value)) { unimplemented!() }
+    #[verifier::external_body] pub fn set(vals: VxIter<Value>, loc: Option<Loc>) -> (r: Value) ensures r.value == mk_set(kinds_of(vals.items())) { unimplemented!() }
     #[verifier::external_body] pub fn record(pairs: VxIter<(SmolStr, Value)>, loc: Option<Loc>) -> (r: Value) ensures r.value == mk_record(pairs.items().map_values(|p: (SmolStr, Value)| (p.0, p.1.value))) { unimplemented!() }
     // the get_as_* contracts are proved in unit eval_ops (same text)
     #[verifier::external_body] pub fn get_as_bool(&self) -> (r: Result<bool>)
@@ -109,6 +112,7 @@ impl Value {
 pub uninterp spec fn set_elems(s: Set) -> Seq<Value>;
 /// the set / record value built from element kinds (determined, up to source locations which no operation observes, by the kinds)
 pub uninterp spec fn mk_set(ks: Seq<ValueKind>) -> ValueKind;
+pub open spec fn kinds_of(vs: Seq<Value>) -> Seq<ValueKind> { vs.map_values(|v: Value| v.value) }
 pub uninterp spec fn mk_record(ks: Seq<(SmolStr, ValueKind)>) -> ValueKind;
 /// Some(uids) if every element of the set is an entity literal
 pub uninterp spec fn entity_elems(s: Set) -> Option<Seq<EntityUID>>;
